@@ -10,9 +10,23 @@ import re
 from . import common as C
 
 GEN_FILES = ["GenSerial"]
+DRIVERS = ["serial"]
 THEOREMS = ["C17_print_parse_u32", "C17_roundtrip", "C17_roundtrip_serde", "C17_grammar",
             "C17_no_divider_rejected", "C17_never_panics", "C17_full_statement_refuted",
             "C17_known_classes_fail", "C17_nonvacuous"]
+CLAIM = {
+    "text": "Machine-checked proof (Coq 8.16.1) over an executable Gallina model of the text codec: "
+            "round trip under the exact boolean side condition wf_log, conformance of every serialised wf log "
+            "to the published grammar, rejection of texts without a divider, and totality (never panics) for ALL "
+            "texts; the full-strength statement is proved false (C17_full_statement_refuted) and the excluded "
+            "logs are listed known findings. The model is tied to the source by the translator (quoting chars, "
+            "divider, indent, guard) and by differential runs against the Rust codec on structured logs and "
+            "arbitrary text, plus an exhaustive comparison of the whitespace table over all scalar values.",
+    "design_ref": "DESIGN.md §4 C17",
+    "note": "Trusted: Coq kernel; translator; ExtrOcamlBasic extraction + driver; harness. serde_json printing/parsing of "
+            "the metadata object is an environment hypothesis (md_ok, parse∘print = id) monitored on every generated log.",
+    "technique": "Coq proof over extracted model + translator-regenerated tables + differential correspondence",
+}
 TRUSTED_BASE = [
     "Coq 8.16.1 kernel (coqc); no axioms (Print Assumptions: closed under the global context)",
     "tools/gen_from_source.py (pattern extraction of quoting characters, divider, indent from the Rust source)",
@@ -254,7 +268,7 @@ def run(ctx):
     # ---- whitespace table: exhaustive over all scalar values
     ws_impl = C.run([C.VHARNESS, "ws-table"]).stdout.split()
     if ctx.model_ok:
-        ws_model = C.run([C.DRIVER, "ws-table"]).stdout.split()
+        ws_model = C.run([C.driver_path("serial"), "ws-table"]).stdout.split()
         same = ws_impl == ws_model
         obligations.append(("tie:is_whitespace-table-exhaustive", same,
                             "" if same else f"impl {len(ws_impl)} vs model {len(ws_model)} code points"))
@@ -289,7 +303,7 @@ def run(ctx):
         res = xs[2]
         parsed_impl[i] = (d["ser"][1], d["md"][1], res, d["meta"][1])
         model_in.append((i, C.sx(c[0]) + " " + C.sx(d["md"][1])))
-    model = C.run_cases(C.DRIVER, "c17-rt", model_in) if ctx.model_ok else {}
+    model = C.run_cases(C.driver_path("serial"), "c17-rt", model_in) if ctx.model_ok else {}
 
     n_wf = n_fail_known = 0
     redo_as_text = []
@@ -357,7 +371,7 @@ def run(ctx):
         tcases.append((f"redo{k}", t))
     tin = [(i, C.sx(C.cps(t))) for i, t in tcases]
     timpl = C.run_cases(C.VHARNESS, "c17-de", tin)
-    tmodel = C.run_cases(C.DRIVER, "c17-de", tin) if ctx.model_ok else {}
+    tmodel = C.run_cases(C.driver_path("serial"), "c17-de", tin) if ctx.model_ok else {}
     need_md = []
     outcome_hist = {}
     for i, t in tcases:
